@@ -34,7 +34,10 @@ def main() -> int:
     except BaseException as e:  # an escaping exception is a failing run ...
         tb = traceback.extract_tb(e.__traceback__)
         inner = tb[-1].filename if tb else ""
-        if os.path.abspath(inner).startswith(ROOT + os.sep) and ".venv" not in inner:
+        # (exceptions the harness INJECTS on purpose - faulting actions, hooks, services - are raised in harness files too, so
+        #  only the kinds that can only be programming errors of the harness itself are classified this way)
+        if (isinstance(e, (NameError, ImportError, SyntaxError)) and os.path.abspath(inner).startswith(ROOT + os.sep)
+                and ".venv" not in inner):
             # ... unless it was raised by the checking machinery itself (a bug in a harness is not a finding)
             print(f"HARNESS-ERROR: {body['obligation']}({args}) raised {type(e).__name__}: {e} inside the harness ({inner}:{tb[-1].lineno})")
             print(traceback.format_exc()[-1200:])
